@@ -168,3 +168,109 @@ func suiteC08Slow(c *Ctx) {
 	}
 	c.Cov.Traces = c.Cov.Schedules
 }
+
+// c08fault: a fault at one moment of the shutdown -- one reporter call made by the winning Close (the final pass's
+// counter delivery, the last Flush, or the reporter's own Close) panics once and the application recovers, as a
+// deferred Close in main under a recover would.  "Further Close calls return nil": a later Close, and a Close that was
+// already waiting for the first one, must return (a completion signal that is raised only on the normal way out would
+// leave them waiting for ever).  Real goroutines, a watchdog judges; the scope is abandoned afterwards.
+
+func init() {
+	register("c08fault", "C08", "", suiteC08Fault)
+}
+
+func scenarioC08Fault(c *Ctx, cached bool, at string, concurrent bool) {
+	w := newWorld(cached, 0, 1, true)
+	var armed, fired int32
+	inCall := make(chan struct{})
+	gate := make(chan struct{})
+	w.log().Pre = func(e *Ev) {
+		if e.Kind == at && atomic.LoadInt32(&armed) == 1 && atomic.CompareAndSwapInt32(&fired, 0, 1) {
+			if concurrent {
+				close(inCall)
+				<-gate
+			}
+			panic("c08fault: the reporter's " + at + " call failed")
+		}
+	}
+	w.root.Counter("c").Inc(3)
+	w.root.SubScope("s").Counter("c").Inc(4)
+	atomic.StoreInt32(&armed, 1)
+	line := fmt.Sprintf("cached=%v; the reporter's %q call panics once inside the first Close and the application recovers; concurrent second caller=%v; then Close again", cached, at, concurrent)
+	fail := func(clause, why string) {
+		c.Cov.Fail(Failure{Kind: "violated", Clause: clause, Signature: "c08-close-after-recovered-reporter-panic", Line: line, Reply: why})
+	}
+	first := make(chan interface{}, 1)
+	go func() {
+		_, v := catch(func() { w.closer.Close() })
+		first <- v
+	}()
+	second := make(chan error, 1)
+	if concurrent {
+		select {
+		case <-inCall:
+		case <-time.After(10 * time.Second):
+			close(gate)
+			c.Cov.Fail(Failure{Kind: "crash", Clause: "setup", Signature: "c08fault-no-call", Line: line, Reply: "the first Close never reached the reporter's " + at + " call"})
+			return
+		}
+		go func() { second <- w.closer.Close() }()
+		time.Sleep(20 * time.Millisecond) // let it reach its wait for the first caller
+		close(gate)
+	}
+	select {
+	case v := <-first:
+		if v == nil && atomic.LoadInt32(&fired) == 1 {
+			c.Cov.Hit("close-fault.panic-swallowed-by-the-library")
+		}
+	case <-time.After(10 * time.Second):
+		fail("further-close-calls-return", "the first Close neither returned nor let the reporter's panic through within 10 s")
+		return
+	}
+	if atomic.LoadInt32(&fired) == 0 {
+		// the call never happened (e.g. no reporter Close for a reporter that is no io.Closer): nothing to judge
+		c.Cov.Eval(line, false)
+		return
+	}
+	if concurrent {
+		select {
+		case <-second:
+		case <-time.After(8 * time.Second):
+			fail("further-close-calls-return", "a Close call that was waiting for the first one is still blocked 8 s after the first one ended in the reporter's (recovered) panic")
+			return
+		}
+	}
+	third := make(chan error, 1)
+	go func() {
+		var err error
+		if p, v := catch(func() { err = w.closer.Close() }); p {
+			err = fmt.Errorf("panic: %v", v)
+		}
+		third <- err
+	}()
+	select {
+	case err := <-third:
+		if err != nil {
+			fail("further-close-calls-return-nil", "a later Close returned "+err.Error())
+			return
+		}
+	case <-time.After(8 * time.Second):
+		fail("further-close-calls-return", "a Close call made after the first one ended in the reporter's (recovered) panic is still blocked after 8 s")
+		return
+	}
+	c.Cov.Hit("close-fault.at=" + at)
+	c.Cov.Eval(line, true)
+	c.Cov.Schedules++
+}
+
+func suiteC08Fault(c *Ctx) {
+	c.Cov.Rule = "real goroutines: one reporter call of the winning root Close (final pass's counter delivery / Flush / reporter Close; plain and cached) panics once, the application recovers; with and without a second Close caller already waiting; oracle: the waiting caller and a later Close return within 8 s, the later one with nil; nontrivial = the faulty call happened"
+	for _, cached := range []bool{false, true} {
+		for _, at := range []string{"counter", "flush", "close"} {
+			for _, conc := range []bool{false, true} {
+				scenarioC08Fault(c, cached, at, conc)
+			}
+		}
+	}
+	c.Cov.Traces = c.Cov.Schedules
+}
